@@ -174,8 +174,10 @@ class NodePathParser(object):
         elif self.current_state == STATE_STOP_SLICE:
             self.add_new_path_component()
 
-        elif self.current_token != '':
-            raise unexpected_char_error(self.current_token[0], self.pos - len(self.current_token))
+        else:
+            # A subset specifier without any path component, or a slice that
+            # is still open, is not a complete path expression.
+            raise PathExprParsingError('unexpected end of path expression at position {}'.format(self.pos))
 
         return self.node_path
 
